@@ -762,6 +762,11 @@ func genCorpus() {
 			{"bad statement", "\nfunc Broken2() {\n\tif {\n\t}\n\tx := := 1\n}\n"},
 			{"bad declaration", "\nfunc ( {\n\nvar = 5\n"},
 			{"unterminated string", "\nvar s = \"never closed\n"},
+			{"two operands without an operator (no Bad node)", "\nfunc Lost1() int {\n\tx := 1 2\n\treturn x\n}\n"},
+			{"two expressions after return (no Bad node)", "\nfunc Lost2(a, b int) int {\n\treturn a b\n}\n"},
+			{"missing comma in a call (no Bad node)", "\nfunc Lost3(a, b int) int {\n\treturn max(a b)\n}\n"},
+			{"stray tokens after a complete statement", "\nfunc Lost4() int {\n\ty := 3 ) ] extra\n\treturn y\n}\n"},
+			{"illegal character", "\nvar q = 1 # 2\n"},
 		}
 		for _, e := range errs {
 			for _, where := range []string{"before", "after", "other-file"} {
@@ -818,6 +823,35 @@ func genCorpus() {
 		modes := bystanders(files)
 		add(caseT{Kind: "rename", What: "history: new conflicting call in a later file, old derived.gen.go present", Renames: "autoname", Length: "longer", Gofmt: true,
 			History: map[string]string{"b.go": bfile}}, files, modes)
+	}
+
+	// --- a subset of a module: the named package imports another package of the module that has derive calls of its
+	// own (some only in its test files, some that the flags would rename): nothing outside the named package's
+	// directory may change
+	{
+		stock := "// Package stock is NOT named on the command line.\npackage stock\n\ntype Item struct {\n\tName string\n\tTags []string\n}\n\n// Same has a call of its own.\nfunc Same(a, b *Item) bool { return deriveEqual(a, b) }\n\n// Dup would be renamed by -dedup.\nfunc Dup(a, b *Item) bool { return deriveEqualAgain(a, b) } // stays as written\n\n// Conf would be renamed by -autoname.\nfunc Conf(a, b []string) bool { return deriveEqual(a, b) }\n"
+		stockClean := strings.Replace(strings.Replace(stock, "func Dup(a, b *Item) bool { return deriveEqualAgain(a, b) } // stays as written\n", "", 1), "func Conf(a, b []string) bool { return deriveEqual(a, b) }\n", "", 1)
+		stockTest := "package stock\n\nimport \"testing\"\n\nfunc TestItem(t *testing.T) {\n\tif deriveCompare(&Item{}, &Item{}) != 0 || deriveHash(&Item{}) != deriveHash(&Item{}) {\n\t\tt.Fatal()\n\t}\n}\n"
+		shop := "package shop\n\nimport \"fsx/CASE/stock\"\n\ntype Order struct {\n\tItems []stock.Item\n\tFirst *stock.Item\n}\n\nfunc Eq(a, b *Order) bool { return deriveEqual(a, b) }\n\nfunc H(a *Order) uint64 { return deriveHash(a) }\n"
+		shopClash := shop + "\nfunc EqAgain(a, b *Order) bool { return deriveEqualAgain(a, b) } // renamed by -dedup\n"
+		staleStock := "// Code generated by goderive DO NOT EDIT.\n\npackage stock\n\nfunc deriveEqual(this, that *Item) bool { return this == that }\n"
+		for _, v := range []struct {
+			what  string
+			files map[string]string
+			kind  string
+		}{
+			{"imported package with clean calls and test-only calls, no derived.gen.go there", map[string]string{"shop/shop.go": shop, "stock/stock.go": stockClean, "stock/stock_test.go": stockTest}, "success"},
+			{"imported package with a stale derived.gen.go", map[string]string{"shop/shop.go": shop, "stock/stock.go": stockClean, "stock/stock_test.go": stockTest, "stock/derived.gen.go": staleStock}, "success"},
+			{"imported package with calls the flags would rename", map[string]string{"shop/shop.go": shop, "stock/stock.go": stock, "stock/stock_test.go": stockTest}, "success"},
+			{"imported package with calls the flags would rename, the named package has one too", map[string]string{"shop/shop.go": shopClash, "stock/stock.go": stock, "stock/stock_test.go": stockTest}, "rename"},
+		} {
+			v.files["README.txt"] = "module subset\n"
+			rn, ln := "", ""
+			if v.kind == "rename" {
+				rn, ln = "dedup", "shorter"
+			}
+			add(caseT{Kind: v.kind, What: "subset of a module: " + v.what, Renames: rn, Length: ln, Gofmt: true, Pkg: "shop"}, v.files, nil)
+		}
 	}
 
 	// --- I/O failure: derived.gen.go is a non-empty directory (os.Create / os.Remove fail): a message, nothing touched
